@@ -14,6 +14,11 @@ The policy operation language covers every public method of every policy: push, 
 (every line), statistics (every line), `DeadlineQueue.purge_expired`, and the read-only accessors
 (`count_expired`/`count_valid`, `get_flow_depth`/`flow_count`/`get_flow_weight`, `is_congested`).
 
+Part 2b (family `pipew`): the same pipeline with the `Server` built on every `ConcurrencyModel` of
+`components/server/concurrency.py` (Fixed, Dynamic with set_limit/scale_up/scale_down called by a controller entity,
+Weighted with per-request `metadata.weight`), judged in capacity units (`HappyModel/C08/PipeW{,Spec,Driver}.lean`,
+theorems `HappyProofs/C08/PipeWProps.lean`).
+
 Lean side: `HappyModel/C08/*`, theorems `HappyProofs/C08/Props.lean`, `HappyProofs/C08/IndusProps.lean`, `HappyProofs/C08/IndusStrand{,B}.lean`.
 """
 from __future__ import annotations
@@ -220,8 +225,8 @@ def op_line(cfg, op):
 class C08(core.Property):
     id = "C08"
     driver = "drv-c08"
-    lake_targets = ["HappyProofs.C08.Props", "HappyProofs.C08.IndusProps", "HappyProofs.C08.IndusStrandB", "drv-c08"]
-    audit_imports = ["HappyProofs.C08.Props", "HappyProofs.C08.IndusProps", "HappyProofs.C08.IndusStrandB"]
+    lake_targets = ["HappyProofs.C08.Props", "HappyProofs.C08.PipeWProps", "HappyProofs.C08.IndusProps", "HappyProofs.C08.IndusStrandB", "HappyProofs.C08.IndusGate", "drv-c08"]
+    audit_imports = ["HappyProofs.C08.Props", "HappyProofs.C08.PipeWProps", "HappyProofs.C08.IndusProps", "HappyProofs.C08.IndusStrandB", "HappyProofs.C08.IndusGate"]
     lean_files = ["HappyModel/C08/*.lean", "HappyProofs/C08/*.lean", "HappyModel/Proto.lean", "Driver/C08.lean"]
     theorems = []
     quick_cases = 2400
@@ -231,7 +236,13 @@ class C08(core.Property):
             "capacities 1–3 and unbounded, ties in priority/deadline, clock moving past deadlines, DeadlineQueue housekeeping rounds: bursts of "
             "3–12 spread deadlines, clock jump, count_expired/count_valid, purge_expired, drain); family pipe: ≤12 requests "
             "arriving at a Server/ShiftedServer in bursts on one nanosecond through forwarder chains of 0–3 hops, service "
-            "times on a 0.25 s grid, concurrency 1–3, queue capacity 0–3 or unbounded, FIFO/LIFO/priority queue; a case is "
+            "times on a 0.25 s grid, concurrency 1–3, queue capacity 0–3 or unbounded, FIFO/LIFO/priority queue; family pipew: the same "
+            "pipeline with the Server built on every ConcurrencyModel — FixedConcurrency, DynamicConcurrency (min 1–2, max 3–6 or unbounded, 1–6 "
+            "set_limit/scale_up/scale_down calls by a controller entity at instants before, between — off the 0.25 s grid — and after the traffic, "
+            "requested limits 0–9 so that both clamps bite), WeightedConcurrency (pool 1–41 units, per-request metadata.weight 1–5, in lifted mode up to pool+1) — ≤10 requests, "
+            "judged in capacity units; restricted mode (default, HV_C08_WEIGHT_LIFT unset): weighted pools use one common weight dividing the pool "
+            "or a pool as large as all weights together, limits are raised only while nothing can wait; lifted mode adds arbitrary weight mixes up to "
+            "pool+1 on FIFO and raises at any instant (needs fixes/C08-weighted-head-admission.diff and C08-dynamic-scale-up-strand.diff); a case is "
             "non-trivial when it has a pop of a non-empty queue (policy) or a request that waited (pipe); distinct = distinct case content")
     trusted_base = [
         "hv/props/c08.py adapters (drive the real policy / Simulation objects, canonical transcript)",
@@ -239,6 +250,9 @@ class C08(core.Property):
         "balking.random / red.random replaced by a scripted draw (the draw is an input); RED's float average and CoDel's float control law are not modelled: "
         "their drop decisions are recorded from the implementation when the case is generated and passed to model and Spec as inputs",
         "pipe: delivery schedule recorded by wrapping handle_event of Queue, QueueDriver, worker adapter (public entities) and by harness source/forwarder/sink entities",
+        "pipew: additionally DynamicConcurrency.set_limit (public) is wrapped to log the requested limit; scale_up/scale_down reach it through self.set_limit; "
+        "the PipeW model's queue is the list specification of FIFO/LIFO/priority (part 1 proves the deque/heap models refine it); the link between the "
+        "PipeWSpec judge and the PipeW model is the correspondence run (no judge-accepts-model theorem for this family)",
     ]
     assumptions = [
         "item ids in a case are distinct",
@@ -255,6 +269,13 @@ class C08(core.Property):
         "fifo_start_order: Setting with c.pol.kind = fifo, any limit; fifo_end_to_end: additionally concurrency limit 1 (initial state { limit := 1 })",
         "pipe theorems: Sched — every QueueDispatchedEvent is delivered after the payload it was created behind (engine FIFO tie order, C01); "
         "theorem dispatched_before_payload_breaks shows the hypothesis is necessary; the correspondence run reports any schedule violating it as a disagreement-free judge violation",
+        "PipeW part A (used_eq_in_service_weight, start_takes_weight, finish_returns_weight, start_never_exceeds_limit): every configuration, variant and "
+        "schedule, no hypothesis; in_service_weight_le_limit: NoLower — no set_limit call of the schedule lowers the limit (after a lowering the items "
+        "already in service may exceed it, which DynamicConcurrency documents; the examples show the hypothesis is necessary)",
+        "PipeW part B (final_winv, no_accepted_item_discarded, item_state_partition_count, no_strand): Setting = variant repaired (HEAD + the two pending "
+        "patches), Sched c w0 — a QueueDispatchedEvent is delivered after its payload; the limit is not lowered while a dequeued item is on its way to the "
+        "worker (same-instant race, cf. known finding limit-lowered-in-same-instant); with a LIFO/priority queue every request takes the same number w0 of "
+        "units (a FIFO head is stable under arrivals, a LIFO/priority head is not: a lighter arrival behind a heavy head would wait without a notify)",
     ]
     partial_theorems = {
         "HappyModel.C08.held_le_capacity": "all policies constructed with `capacity`; FairQueue's bound max_flows*per_flow_capacity is only checked by the judge",
@@ -267,6 +288,8 @@ class C08(core.Property):
             return indus.generate(rng, i, tier)
         if i % 3 == 2:
             return pipe.generate(rng, i, tier)
+        if i % 6 == 1:
+            return pipew.generate(rng, i, tier)
         return self.gen_policy(rng, tier)
 
     def gen_policy(self, rng, tier):
@@ -379,6 +402,8 @@ class C08(core.Property):
             return indus.run_impl(case)
         if case["family"] == "pipe":
             return pipe.run_impl(case)
+        if case["family"] == "pipew":
+            return pipew.run_impl(case)
         return run_policy(case["cfg"], case["ops"])
 
     # ------------------------------------------------------------------ model / judge
@@ -387,6 +412,8 @@ class C08(core.Property):
             return indus.model_block(case, variant)
         if case["family"] == "pipe":
             return pipe.model_block(case, variant)
+        if case["family"] == "pipew":
+            return pipew.model_block(case, variant)
         cfg = case["cfg"]
         return ("policy " + cfg_header(cfg), [op_line(cfg, op) for op in case["ops"]])
 
@@ -400,6 +427,8 @@ class C08(core.Property):
             return indus.judge_block(case, impl_out)
         if case["family"] == "pipe":
             return pipe.judge_block(case, impl_out)
+        if case["family"] == "pipew":
+            return pipew.judge_block(case, impl_out)
         cfg = case["cfg"]
         if len(impl_out) != len(case["ops"]):
             return None
@@ -418,6 +447,8 @@ class C08(core.Property):
             return indus.nontrivial_key(case, impl_out)
         if case["family"] == "pipe":
             return pipe.nontrivial_key(case, impl_out)
+        if case["family"] == "pipew":
+            return pipew.nontrivial_key(case, impl_out)
         for line in impl_out:
             if line.startswith("pop ") and not line.startswith("pop none"):
                 return json.dumps(case, sort_keys=True)
@@ -429,6 +460,9 @@ class C08(core.Property):
             return
         if case["family"] == "pipe":
             yield from pipe.shrink(case)
+            return
+        if case["family"] == "pipew":
+            yield from pipew.shrink(case)
             return
         xs = case["ops"]
         n = len(xs)
@@ -446,6 +480,8 @@ class C08(core.Property):
             return indus.mutate(case, rng)
         if case["family"] == "pipe":
             return pipe.mutate(case, rng)
+        if case["family"] == "pipew":
+            return pipew.mutate(case, rng)
         xs = [list(x) for x in case["ops"]]
         if not xs:
             return case
@@ -780,6 +816,393 @@ pipe = types.SimpleNamespace(generate=pipe_generate, run_impl=pipe_run_impl, mod
                              judge_block=pipe_judge_block, nontrivial_key=pipe_nontrivial_key,
                              shrink=pipe_shrink, mutate=pipe_mutate)
 
+# --------------------------------------------------------------------------- part 2b (pipew)
+# `Server` over every ConcurrencyModel of components/server/concurrency.py, judged in capacity units
+# (model `HappyModel/C08/PipeW.lean`, judge `PipeWSpec.lean`).
+#
+# W_LIFT: unmodified /repo (a) dequeues a head-of-queue request on `has_capacity()` = one free unit and
+# discards it when `acquire(weight)` then fails (fixes/C08-weighted-head-admission.diff) and (b) does not
+# tell the driver about a raised DynamicConcurrency limit (fixes/C08-dynamic-scale-up-strand.diff).
+# Until both patches are applied the generator stays clear of the two triggers:
+#   restricted (default)  weighted pools: either one common weight w with capacity a multiple of w
+#                         (so has_capacity(1) ⇔ has_capacity(w)) or a pool at least as large as all weights
+#                         together; dynamic limits: lowered at any off-grid instant, raised only while
+#                         nothing can be waiting (before the first arrival / after the last possible finish);
+#   lifted (HV_C08_WEIGHT_LIFT=1)  arbitrary weight mixes up to capacity+1 (FIFO; LIFO/priority keep a common
+#                         weight: a lighter request arriving behind a heavy head is a residual gap of the patch),
+#                         limits raised at any instant, also on the arrival/completion grid.
+W_LIFT = os.environ.get("HV_C08_WEIGHT_LIFT", "0") == "1"
+HALF = Q // 2           # controller instants: odd multiples are off the arrival/completion grid
+
+
+def _clamp(lo, hi, n):
+    n = max(lo, n)
+    return n if hi is None else min(hi, n)
+
+
+def pipew_limits(case):
+    """static evolution of the dynamic limit: [(t_half, kind, arg, requested, old, new)] in call order"""
+    lim, out = case["limit"], []
+    for t2, op, n in sorted(case.get("ctl", []), key=lambda x: x[0]):
+        req = n if op == "set" else lim + n if op == "up" else lim - n
+        new = _clamp(case["lo"], case["hi"], req)
+        out.append((t2, op, n, req, lim, new))
+        lim = new
+    return out
+
+
+def pipew_generate(rng, i, tier, lift=None):
+    lift = W_LIFT if lift is None else lift
+    conc = rng.choice(["weighted", "weighted", "weighted", "dynamic", "dynamic", "fixed"])
+    kind = rng.choice(["fifo", "fifo", "fifo", "lifo", "prio"])
+    cap = rng.choice([None, None, None, 0, 1, 2, 3])
+    n = rng.choice([1, 2, 3, 4, 6, 8, 10])
+    svc_pool = rng.choice([[4], [1, 2, 4], [0, 1, 4], [2], [1]])
+    bases = sorted(rng.sample(range(2, 25), k=rng.choice([1, 2, 3])))
+    reqs = []
+    for _ in range(n):
+        r = rng.random()
+        if r < 0.5 or not reqs:
+            t = rng.choice(bases)
+        elif r < 0.85:
+            t = rng.choice(reqs)[0] + rng.choice(svc_pool) * rng.choice([1, 1, 2])
+        else:
+            t = rng.choice(reqs)[0] + rng.choice([0, 1])
+        reqs.append([t, rng.choice([0, 0, 1, 1, 2, 3]), rng.choice([0, 1, 1, 2]), 1])
+    case = {"family": "pipew", "conc": conc, "policy": {"kind": kind, "cap": cap}, "reqs": reqs,
+            "svcs": [rng.choice(svc_pool) for _ in range(n)], "lo": 1, "hi": None, "ctl": []}
+    if conc == "weighted":
+        style = rng.choice(["common", "common", "ample", "mixed"]) if lift else rng.choice(["common", "common", "ample"])
+        if style == "mixed" and kind != "fifo":
+            style = "common"
+        if style == "common":
+            w = rng.choice([1, 2, 2, 3, 5])
+            case["limit"] = w * rng.choice([1, 1, 2, 3])
+            for r in reqs:
+                r[3] = w
+        elif style == "ample":
+            for r in reqs:
+                r[3] = rng.choice([1, 2, 3, 4])
+            case["limit"] = sum(r[3] for r in reqs) + rng.choice([0, 0, 1])
+        else:
+            case["limit"] = rng.choice([1, 2, 3, 4, 6])
+            top = case["limit"] + (1 if rng.random() < 0.25 else 0)
+            for r in reqs:
+                r[3] = rng.choice([1, 1, 2, 3, top, max(1, top - 1)])
+                r[3] = min(r[3], top)
+    else:
+        # Fixed / Dynamic ignore the weight the requests carry
+        for r in reqs:
+            r[3] = rng.choice([1, 1, 2, 3])
+        case["limit"] = rng.choice([1, 1, 2, 3])
+    if conc == "dynamic":
+        case["lo"] = rng.choice([1, 1, 2])
+        case["hi"] = rng.choice([None, 3, 4, 6])
+        case["limit"] = max(case["lo"], case["limit"])
+        if case["hi"] is not None:
+            case["hi"] = max(case["hi"], case["limit"])
+        first = 2 * min(r[0] for r in reqs)
+        quiet = 2 * (max(r[0] for r in reqs) + sum(case["svcs"]) + 2)
+        ctl = []
+        for _ in range(rng.choice([1, 2, 3, 4, 6])):
+            op = rng.choice(["set", "up", "down", "down", "up"])
+            arg = rng.choice([0, 1, 2, 3, 5, 9]) if op == "set" else rng.choice([1, 1, 2, 4])
+            where = rng.random()
+            if where < 0.5:
+                t2 = 2 * rng.randrange(first // 2, quiet // 2 + 1) + 1          # off the grid, inside the busy stretch
+            elif where < 0.65:
+                t2 = rng.randrange(0, max(1, first))                            # before the first arrival
+            elif where < 0.8:
+                t2 = quiet + rng.choice([1, 2, 3, 8])                           # after the last possible finish
+            else:
+                t2 = 2 * (rng.choice(reqs)[0] + rng.choice([0, 1, 2, 4]))       # on the grid: beside arrivals / completions
+            ctl.append([t2, op, arg])
+        case["ctl"] = ctl
+    return pipew_restrict(case) if not lift else pipew_no_grid_lowering(case)
+
+
+def pipew_restrict(case):
+    """restricted mode: keep a case clear of the two open /repo defects (see W_LIFT) — drop controller calls
+    that raise the limit while a request may be waiting (and lowerings on the grid, where they can race with a
+    granted poll: known finding `limit-lowered-in-same-instant`); weighted pools: a common weight that divides
+    the capacity, or a pool as large as all weights together"""
+    c = dict(case)
+    if case["conc"] == "weighted":
+        ws = {r[3] for r in case["reqs"]}
+        if not (len(ws) == 1 and case["limit"] % next(iter(ws)) == 0):
+            c["limit"] = max(case["limit"], sum(r[3] for r in case["reqs"]))
+        return c
+    if case["conc"] != "dynamic" or not case.get("ctl"):
+        return c
+    first = 2 * min(r[0] for r in case["reqs"])
+    quiet = 2 * (max(r[0] for r in case["reqs"]) + sum(case["svcs"]) + 2)
+    keep = [list(x) for x in case["ctl"]]
+    while True:
+        c["ctl"] = keep
+        bad = [[t2, op, n] for t2, op, n, _req, old, new in pipew_limits(c)
+               if (new > old and first <= t2 < quiet) or (new < old and t2 % 2 == 0)]
+        if not bad:
+            return c
+        keep.remove(bad[0])
+
+
+def pipew_no_grid_lowering(case):
+    """lifted mode still keeps lowerings off the arrival/completion grid: a limit lowered in the instant of a
+    granted poll is the protocol gap already filed as known finding `limit-lowered-in-same-instant`"""
+    if case["conc"] != "dynamic" or not case.get("ctl"):
+        return case
+    c = dict(case)
+    keep = [list(x) for x in case["ctl"]]
+    while True:
+        c["ctl"] = keep
+        bad = [[t2, op, n] for t2, op, n, _req, old, new in pipew_limits(c) if new < old and t2 % 2 == 0]
+        if not bad:
+            return c
+        keep.remove(bad[0])
+
+
+def pipew_run_impl(case):
+    from happysimulator.components.queue import QueueDeliverEvent, QueueNotifyEvent, QueuePollEvent
+    from happysimulator.components.queue_policy import FIFOQueue, LIFOQueue, PriorityQueue
+    from happysimulator.components.server.concurrency import DynamicConcurrency, FixedConcurrency, WeightedConcurrency
+    from happysimulator.components.server.server import Server
+    from happysimulator.core.entity import Entity
+    from happysimulator.core.event import Event
+    from happysimulator.core.simulation import Simulation
+    from happysimulator.core.temporal import Duration, Instant
+    from happysimulator.distributions.latency_distribution import LatencyDistribution
+
+    pol = case["policy"]
+    capf = float("inf") if pol["cap"] is None else pol["cap"]
+    md = lambda ev: ev.context["metadata"]
+    tag_of = lambda ev: md(ev)["tag"]
+    if pol["kind"] == "fifo":
+        policy = FIFOQueue(capacity=capf)
+    elif pol["kind"] == "lifo":
+        policy = LIFOQueue(capacity=capf)
+    else:
+        policy = PriorityQueue(capacity=capf, key=lambda ev: md(ev)["key"])
+    if case["conc"] == "fixed":
+        model = FixedConcurrency(case["limit"])
+    elif case["conc"] == "dynamic":
+        model = DynamicConcurrency(initial=case["limit"], min_limit=case["lo"], max_limit=case["hi"])
+    else:
+        model = WeightedConcurrency(total_capacity=case["limit"])
+
+    class Seq(LatencyDistribution):
+        def __init__(self, qs):
+            super().__init__(1.0)
+            self.qs, self.k = qs, 0
+
+        def get_latency(self, now):
+            v = self.qs[self.k % len(self.qs)]
+            self.k += 1
+            return Duration(v * Q)
+
+    class Sink(Entity):
+        def handle_event(self, ev):
+            return []
+
+    class Fwd(Entity):
+        def __init__(self, name, nxt):
+            super().__init__(name)
+            self.nxt = nxt
+
+        def handle_event(self, ev):
+            return [self.forward(ev, self.nxt)]
+
+    class Ctl(Entity):
+        """autoscaling controller: calls the public DynamicConcurrency methods at scripted instants"""
+
+        def handle_event(self, ev):
+            op, n = md(ev)["op"], md(ev)["n"]
+            if op == "set":
+                model.set_limit(n)
+            elif op == "up":
+                model.scale_up(n)
+            else:
+                model.scale_down(n)
+            return []
+
+    sink, ctl = Sink("sink"), Ctl("ctl")
+    srv = Server("srv", concurrency=model, service_time=Seq(case["svcs"]), queue_policy=policy, downstream=sink)
+    log = []
+
+    def counters():
+        st = srv.stats
+        return (f"{srv.depth} {srv.stats_accepted} {srv.stats_dropped} {srv.active_requests} {st.requests_completed} "
+                f"{st.requests_rejected} {srv.concurrency} {srv.available_capacity}")
+
+    def emit(action, res):
+        if len(log) > MAX_LINES:
+            raise RuntimeError("delivery watchdog")
+        log.append(f"{srv.now.nanoseconds} {action} -> {res} | {counters()}")
+
+    def has(evs, cls):
+        return any(isinstance(e, cls) for e in (evs or []))
+
+    res_handle, q_handle, d_handle, work = srv.handle_event, srv.queue.handle_event, srv.driver.handle_event, srv.handle_queued_event
+
+    def on_resource(ev):
+        before = srv.stats_accepted
+        out = res_handle(ev)
+        emit(f"arr {tag_of(ev)} {md(ev)['key']} {md(ev).get('weight', 1)}", 1 if srv.stats_accepted > before else 0)
+        return out
+
+    def on_queue(ev):
+        out = q_handle(ev)
+        if isinstance(ev, QueuePollEvent):
+            got = [e for e in (out or []) if isinstance(e, QueueDeliverEvent) and e.payload is not None]
+            emit("poll", tag_of(got[0].payload) if got else "none")
+        return out
+
+    def on_driver(ev):
+        if isinstance(ev, QueueNotifyEvent):
+            out = d_handle(ev)
+            emit("notify", "poll" if has(out, QueuePollEvent) else "idle")
+        elif isinstance(ev, QueueDeliverEvent):
+            tag = None if ev.payload is None else tag_of(ev.payload)
+            out = d_handle(ev)
+            if tag is None:
+                emit("deliver none", "poll" if has(out, QueuePollEvent) else "idle")
+            else:
+                emit(f"deliver {tag}", "-")
+        elif ev.event_type == "QUEUE_DISPATCHED":
+            out = d_handle(ev)
+            emit("disp", "poll" if has(out, QueuePollEvent) else "idle")
+        else:
+            out = d_handle(ev)
+        return out
+
+    def on_work(ev):
+        tag, w = tag_of(ev), md(ev).get("weight", 1)
+        gen = work(ev)
+
+        def traced():
+            try:
+                v = next(gen)
+            except StopIteration as e:
+                emit(f"work {tag} {w}", "reject")
+                return e.value
+            emit(f"work {tag} {w}", "start")
+            while True:
+                sent = yield v
+                try:
+                    v = gen.send(sent)
+                except StopIteration as e:
+                    emit(f"fin {tag}", "-")
+                    return e.value
+
+        return traced()
+
+    srv.handle_event = on_resource
+    srv.queue.handle_event = on_queue
+    srv.driver.handle_event = on_driver
+    srv.handle_queued_event = on_work
+    if case["conc"] == "dynamic":
+        set_limit = model.set_limit
+
+        def on_set_limit(n):
+            set_limit(n)
+            emit(f"limit {max(0, n)}", "-")
+
+        model.set_limit = on_set_limit
+
+    chains = [srv]
+    for h in range(1, 4):
+        chains.append(Fwd(f"fwd{h}", chains[-1]))
+    sim = Simulation(entities=[srv, sink, ctl] + chains[1:], end_time=Instant.from_seconds(END_S))
+    evs = []
+    for i, (t, hops, key, w) in enumerate(case["reqs"]):
+        ev = Event(time=Instant(t * Q), event_type="REQ", target=chains[hops])
+        ev.add_context("tag", i)
+        ev.add_context("key", key)
+        ev.add_context("weight", w)
+        evs.append(ev)
+    for t2, op, n in sorted(case.get("ctl", []), key=lambda x: x[0]):
+        ev = Event(time=Instant(t2 * HALF), event_type="CTL", target=ctl)
+        ev.add_context("op", op)
+        ev.add_context("n", n)
+        evs.append(ev)
+    sim.schedule(evs)
+    sim.run()
+    _store(case, log)
+    return log
+
+
+def pipew_header(case, variant):
+    pol = case["policy"]
+    return (f"{variant} {case['conc']} {case.get('lo', 1)} {_opt(case.get('hi'))} {case['limit']} "
+            f"{pol['kind']} {_opt(pol['cap'])}")
+
+
+def pipew_model_block(case, variant):
+    impl = _impl_out(case)
+    if impl and impl[0].startswith("IMPL-"):
+        return ("pipew " + pipew_header(case, variant), [])
+    return ("pipew " + pipew_header(case, variant), [l.split(" -> ")[0] for l in impl if l])
+
+
+def pipew_judge_block(case, impl_out):
+    return ("judge-pipew " + pipew_header(case, "repaired"), [l for l in impl_out if l])
+
+
+def pipew_norm(case):
+    return pipew_no_grid_lowering(case) if W_LIFT else pipew_restrict(case)
+
+
+def pipew_shrink(case):
+    for c in _pipew_shrink(case):
+        c = pipew_norm(c)
+        if c != case:
+            yield c
+
+
+def _pipew_shrink(case):
+    reqs = case["reqs"]
+    for i in range(len(reqs)):
+        c = dict(case)
+        c["reqs"] = reqs[:i] + reqs[i + 1:]
+        c["svcs"] = case["svcs"][:i] + case["svcs"][i + 1:]
+        if c["reqs"]:
+            yield c
+    for i in range(len(case.get("ctl", []))):
+        c = dict(case)
+        c["ctl"] = case["ctl"][:i] + case["ctl"][i + 1:]
+        yield c
+    for i, r in enumerate(reqs):
+        if r[1] > 0:
+            c = dict(case)
+            c["reqs"] = reqs[:i] + [[r[0], r[1] - 1, r[2], r[3]]] + reqs[i + 1:]
+            yield c
+    if case["policy"]["kind"] != "fifo":
+        c = dict(case)
+        c["policy"] = dict(case["policy"], kind="fifo")
+        yield c
+
+
+def pipew_mutate(case, rng):
+    c = json.loads(json.dumps(case))
+    reqs = c["reqs"]
+    for _ in range(rng.randint(1, 3)):
+        i = rng.randrange(len(reqs))
+        k = rng.random()
+        if k < 0.3:
+            reqs[i][1] = rng.choice([0, 1, 2, 3])
+        elif k < 0.6:
+            reqs[i][0] = rng.choice(reqs)[0] + rng.choice([0, 1, 2, 4])
+        elif k < 0.8 and len(reqs) < 12:
+            reqs.append([rng.choice(reqs)[0] + rng.choice([0, 4]), rng.choice([0, 1, 2]), rng.choice([0, 1, 2]), rng.choice(reqs)[3]])
+            c["svcs"].append(rng.choice(c["svcs"]))
+        else:
+            c["svcs"][i] = rng.choice([0, 1, 2, 4])
+    return pipew_norm(c)
+
+
+pipew = types.SimpleNamespace(generate=pipew_generate, run_impl=pipew_run_impl, model_block=pipew_model_block,
+                              judge_block=pipew_judge_block, nontrivial_key=pipe_nontrivial_key,
+                              shrink=pipew_shrink, mutate=pipew_mutate)
+
 THEOREMS: list[str] = [
     "HappyModel.C08.conservation",
     "HappyModel.C08.held_le_capacity",
@@ -808,6 +1231,18 @@ THEOREMS: list[str] = [
     "HappyModel.C08.Pipe.burst_strands_current",
     "HappyModel.C08.Pipe.shift_change_strands_current",
     "HappyModel.C08.Pipe.dispatched_before_payload_breaks",
+    "HappyModel.C08.PipeW.used_eq_in_service_weight",
+    "HappyModel.C08.PipeW.start_takes_weight",
+    "HappyModel.C08.PipeW.finish_returns_weight",
+    "HappyModel.C08.PipeW.start_never_exceeds_limit",
+    "HappyModel.C08.PipeW.in_service_weight_le_limit",
+    "HappyModel.C08.PipeW.final_winv",
+    "HappyModel.C08.PipeW.no_accepted_item_discarded",
+    "HappyModel.C08.PipeW.item_state_partition_count",
+    "HappyModel.C08.PipeW.no_poll_granted_without_capacity_for_head",
+    "HappyModel.C08.PipeW.no_strand",
+    "HappyModel.C08.PipeW.weighted_head_discarded_current",
+    "HappyModel.C08.PipeW.scale_up_strands_current",
 ]
 C08.theorems = THEOREMS + indus.THEOREMS
 C08.partial_theorems = {**C08.partial_theorems, **indus.PARTIAL_THEOREMS}
